@@ -215,9 +215,9 @@ func cmdCheck(args []string) int {
 		fmt.Fprintln(os.Stderr, "spec error:", err)
 		return 2
 	}
-	eng := &Engine{db: db, repo: *repo, timeoutS: 10, verbose: *verbose, dumpDir: *dump}
+	eng := &Engine{db: db, repo: *repo, timeoutS: 30, verbose: *verbose, dumpDir: *dump}
 	if *tier == "thorough" {
-		eng.timeoutS = 60
+		eng.timeoutS = 120
 		eng.allSolv = true
 	}
 	// contracts of this property
@@ -338,6 +338,12 @@ func cmdCheck(args []string) int {
 			if *dumpAll != "" {
 				os.MkdirAll(*dumpAll, 0o755)
 				os.WriteFile(filepath.Join(*dumpAll, mangle(j.o.Name)+".smt2"), []byte(j.o.Script), 0o644)
+				if l := lightScript(j.o.Script); l != "" {
+					os.WriteFile(filepath.Join(*dumpAll, mangle(j.o.Name)+".light.smt2"), []byte(l), 0o644)
+				}
+				if l := slicedScript(j.o.Script, 2); l != "" {
+					os.WriteFile(filepath.Join(*dumpAll, mangle(j.o.Name)+".sliced.smt2"), []byte(l), 0o644)
+				}
 			}
 			if j.o.Kind == "atomic" {
 				st := "unsat"
@@ -358,7 +364,11 @@ func cmdCheck(args []string) int {
 			if j.o.Expect == "sat" {
 				to = 3
 			}
-			j.o.Res = Solve(j.o.Script, to, eng.allSolv && j.o.Expect == "unsat")
+			light := ""
+			if j.o.Expect == "unsat" && !(eng.allSolv) {
+				light = lightScript(j.o.Script)
+			}
+			j.o.Res = SolveLight(j.o.Script, light, to, eng.allSolv && j.o.Expect == "unsat")
 			if j.o.Kind == "cover" && j.o.Res.Status == "unsat" && j.o.Before != nil {
 				// unreachable after the contract: was it reachable before?
 				b := j.o.Before
